@@ -13,6 +13,7 @@ import (
 type timeSeries struct {
 	attack string
 	label  string
+	base   uint64 // timestamp of the first point
 	prev   uint64
 	data   *tsz.Series
 	len    int
@@ -33,7 +34,15 @@ func (ts *timeSeries) add(t uint64, v float64) error {
 		return errMonotonicTimestamp
 	}
 
-	ts.data.Push(t, v)
+	// tsz keeps the offset of a series' first point in 27 bits (~37h of
+	// milliseconds) and takes a zero timestamp for "no point yet", which
+	// puts the next one under the same limit. Store timestamps relative to
+	// the first point, starting at 1.
+	if ts.len == 0 {
+		ts.base = t
+	}
+
+	ts.data.Push(t-ts.base+1, v)
 	ts.prev = t
 	ts.len++
 
@@ -47,7 +56,7 @@ func (ts *timeSeries) iter() lttb.Iter {
 		for i := 0; i < count && it.Next(); i++ {
 			t, v := it.Values()
 			ps = append(ps, lttb.Point{
-				X: time.Duration(t * 1e6).Seconds(),
+				X: time.Duration((t + ts.base - 1) * 1e6).Seconds(),
 				Y: v,
 			})
 		}
